@@ -6,6 +6,10 @@
 (*   [e |-> "enter",  i, x = wrapper kind]   wrapper i entered              *)
 (*   [e |-> "caught", i, x = timeout | lua]  the module's own protected call *)
 (*                                           at wrapper i caught an error   *)
+(*   [e |-> "nret",   i, x = timeout | lua | ok]  the nested invocation made *)
+(*                                           at wrapper i came back to the   *)
+(*                                           module: in-band timeout / error *)
+(*                                           element, or the value           *)
 (*   [e |-> "done",   i = 0, x = result]     expand() returned (if it did)  *)
 (* A trace is accepted when it is the projection on these visible steps of  *)
 (* some behaviour of the machine (all other machine steps are internal);    *)
@@ -34,17 +38,24 @@ CatchCase ==
   /\ Top.k \in Catchers \cup {"lpc"}
   /\ ~Reraise
 
+\* the boundary of a nested invocation hands something to the enclosing module
+NestedBack ==
+  /\ status = "running" /\ stack # <<>> /\ Top.k \in NestedKinds
+  /\ phase = "ret" \/ (phase = "unwind" /\ NestedAbsorbs)
+
 Visible(e) ==
   CASE e.e = "enter" -> ~AtLoopLevel /\ Depth + 1 = e.i /\ Depth < Len(W) /\ W[Depth + 1] = e.x /\ Enter
     [] e.e = "caught" -> CatchCase /\ Depth = e.i /\ err = e.x /\ Unwind
+    [] e.e = "nret" -> /\ NestedBack /\ Depth = e.i
+                       /\ IF phase = "ret" THEN e.x = "ok" /\ Ret ELSE e.x = err /\ Unwind
     [] e.e = "done" -> (Unwind \/ Ret) /\ stack = <<>> /\ status' = e.x
     [] OTHER -> FALSE
 
 Internal ==
   \/ Invoke \/ Step \/ HookFires \/ Tick
   \/ AtLoopLevel /\ Enter          \* next iteration of a loop (reported only once)
-  \/ Unwind /\ stack # <<>> /\ ~CatchCase
-  \/ Ret /\ stack # <<>>
+  \/ Unwind /\ stack # <<>> /\ ~CatchCase /\ ~NestedBack
+  \/ Ret /\ stack # <<>> /\ ~NestedBack
 
 TNext ==
   \/ l <= Len(Events) /\ Visible(Events[l]) /\ l' = l + 1 /\ adv' = TRUE /\ UNCHANGED t
